@@ -157,7 +157,7 @@ Print Assumptions C13_throttled_parse_block.
 From MLA Require Import EncLayer CompLayer RawLayer LayerStack ComposeThrottled.
 
 Theorem C13_stack_over_throttled :
-  forall CHUNK TAG BLOCK LIMIT : N, 0 < CHUNK -> 0 < TAG -> 0 < BLOCK -> BLOCK < 2 ^ 32 ->
+  forall CHUNK TAG BLOCK LIMIT : N, 0 < CHUNK -> 0 < TAG -> CHUNK + TAG <= 2 ^ 31 -> 0 < BLOCK -> BLOCK < 2 ^ 32 ->
   forall (ks : N -> N -> N) (tagc : N -> bytes -> bytes), (forall i c, len (tagc i c) = TAG) ->
   forall comp dec : bytes -> bytes, (forall x, dec (comp x) = x) ->
   forall (header plain : bytes) (nb : N),
@@ -174,7 +174,7 @@ Theorem C13_stack_over_throttled :
 Proof. exact stack_over_throttled. Qed.
 
 Theorem C13_stack_open_throttled :
-  forall CHUNK TAG BLOCK LIMIT : N, 0 < CHUNK -> 0 < TAG -> 0 < BLOCK -> BLOCK < 2 ^ 32 ->
+  forall CHUNK TAG BLOCK LIMIT : N, 0 < CHUNK -> 0 < TAG -> CHUNK + TAG <= 2 ^ 31 -> 0 < BLOCK -> BLOCK < 2 ^ 32 ->
   forall (ks : N -> N -> N) (tagc : N -> bytes -> bytes), (forall i c, len (tagc i c) = TAG) ->
   forall comp dec : bytes -> bytes, (forall x, dec (comp x) = x) ->
   forall (header plain : bytes) (nb : N),
@@ -194,7 +194,7 @@ Theorem C13_stack_open_throttled :
 Proof. exact stack_open_throttled. Qed.
 
 Theorem C13_stack_throttled_read_full :
-  forall CHUNK TAG BLOCK LIMIT : N, 0 < CHUNK -> 0 < TAG -> 0 < BLOCK -> BLOCK < 2 ^ 32 ->
+  forall CHUNK TAG BLOCK LIMIT : N, 0 < CHUNK -> 0 < TAG -> CHUNK + TAG <= 2 ^ 31 -> 0 < BLOCK -> BLOCK < 2 ^ 32 ->
   forall (ks : N -> N -> N) (tagc : N -> bytes -> bytes), (forall i c, len (tagc i c) = TAG) ->
   forall comp dec : bytes -> bytes, (forall x, dec (comp x) = x) ->
   forall (header plain : bytes) (nb : N),
@@ -225,13 +225,13 @@ Proof.
   assert (Hcs : forall j, j < 3 -> len (block_at 8 ex_plain j) < 2 ^ 32).
   { intros j Hj. assert (Hc : j = 0 \/ j = 1 \/ j = 2) by lia.
     destruct Hc as [->|[->| ->]]; vm_compute; reflexivity. }
-  destruct (C13_stack_open_throttled 16 4 8 1000 ltac:(lia) ltac:(lia) ltac:(lia) ltac:(vm_compute; reflexivity)
+  destruct (C13_stack_open_throttled 16 4 8 1000 ltac:(lia) ltac:(lia) ltac:(vm_compute; discriminate) ltac:(lia) ltac:(vm_compute; reflexivity)
               toy_ks (toy_tag 4) (len_toy_tag 4) (fun x => x) (fun x => x) (fun x => eq_refl)
               [1; 2; 3] ex_plain 3 ltac:(vm_compute; split; discriminate) Hcs
               ltac:(vm_compute; split; [discriminate | reflexivity]) ltac:(vm_compute; reflexivity)
               ltac:(vm_compute; reflexivity) ltac:(vm_compute; reflexivity) [1; 2; 5])
     as (r & c & Hr & Hc & HR).
-  destruct (C13_stack_throttled_read_full 16 4 8 1000 ltac:(lia) ltac:(lia) ltac:(lia) ltac:(vm_compute; reflexivity)
+  destruct (C13_stack_throttled_read_full 16 4 8 1000 ltac:(lia) ltac:(lia) ltac:(vm_compute; discriminate) ltac:(lia) ltac:(vm_compute; reflexivity)
               toy_ks (toy_tag 4) (len_toy_tag 4) (fun x => x) (fun x => x) (fun x => eq_refl)
               [1; 2; 3] ex_plain 3 ltac:(vm_compute; split; discriminate)
               ltac:(vm_compute; split; [discriminate | reflexivity]) ltac:(vm_compute; reflexivity)
@@ -443,7 +443,7 @@ Theorem C13_archive_open_any_source :
     (wc_encrypt cfg = true ->
        len (wc_key cfg) = 32 /\ len (wc_nonce cfg) = 8 /\
        (forall i c, len (tagf (wc_key cfg) (wc_nonce cfg) i c) = TAG) /\
-       nfull CHUNK (len (mid_of BLOCK cfg blocks)) + 2 < 2 ^ 32 /\
+       (nfull CHUNK (len (mid_of BLOCK cfg blocks)) + 2 < 2 ^ 32 /\ CHUNK + TAG <= 2 ^ 31) /\
        dh s (pubk (wc_eph cfg)) = dh (wc_eph cfg) (pubk s) /\
        In (pubk s) (wc_recipients cfg) /\ In s privs) ->
     config_size (to_persistent pubk dh kdf wenc wtag cfg) <= LIMIT ->
